@@ -103,6 +103,11 @@ class C07:
                     "the affinity matrix is converted / rounded before it is used: reported affinities differ from compute_affinity", casts[0].lineno)
         elif shape == ("tuple", (LEN(src), LEN(tgt))) and mat[1][1] == "numpy.zeros":
             ctx.ok("R07.1", site, "matrix = zeros((len(source), len(target))) of doubles")
+        elif shape == ("tuple", (LEN(tgt), LEN(src))):
+            ctx.bad("R07.1", self.file, "match_geometries", f"cost_matrix = {show(mat)[:70]}",
+                    "the affinity matrix is allocated transposed (len(target) rows, len(source) columns) while its cells are addressed "
+                    "[source index, target index]: with unequal numbers of source and target geometries the fill runs out of bounds or "
+                    "leaves cells of real pairs at 0", st.lineno)
         elif not strict:
             pass
         else:
